@@ -11,6 +11,7 @@ import (
 	stdjson "encoding/json"
 	"fmt"
 	"strings"
+	"sync"
 	"unicode/utf16"
 	
 
@@ -467,6 +468,24 @@ func strUnescCase(c *Ctx, k strCase) {
 		var ds string
 		err = json.NewDecoder(strings.NewReader(doc + "\n")).Decode(&ds)
 		cmp("Decoder.Decode(*string)", ds, err)
+		// the Decoder, the literal cut at every offset by a refill of its buffer (a first value takes up the rest of the first 32 KiB)
+		if allZero(k.Pads) {
+			for at := 1; at < len(doc); at++ {
+				stream := append(append([]byte(nil), strRefillPad(at)...), doc...)
+				d := json.NewDecoder(bytes.NewReader(stream))
+				var first json.RawMessage
+				var rs string
+				if err := d.Decode(&first); err != nil {
+					cmp("Decoder.Decode(value before the literal)", "", err)
+					break
+				}
+				err := d.Decode(&rs)
+				if err != nil || rs != ws {
+					err = fmt.Errorf("cut after %d bytes: %v", at, err)
+				}
+				cmp("Decoder.Decode(literal cut by a refill of the buffer)", rs, err)
+			}
+		}
 		c.Eval(1)
 		if got := json.Valid([]byte(doc)); got != v.OK {
 			c.Diverge("C02", "json.Valid(string literal)", fmt.Sprint(v.OK), fmt.Sprint(got), "", k)
@@ -490,6 +509,33 @@ func strUnescCase(c *Ctx, k strCase) {
 	}); p != "" {
 		c.Diverge("C02", "string literal readers", "no panic", p, "", k)
 	}
+}
+
+func allZero(xs []int) bool {
+	for _, x := range xs {
+		if x != 0 {
+			return false
+		}
+	}
+	return true
+}
+
+var strRefillPads sync.Map
+
+// strRefillPad: a string value and a newline that leave room for `at` more bytes in the Decoder's first 32 KiB
+func strRefillPad(at int) []byte {
+	if p, ok := strRefillPads.Load(at); ok {
+		return p.([]byte)
+	}
+	const fill = 32768
+	pad := make([]byte, 0, fill)
+	pad = append(pad, '"')
+	for len(pad) < fill-at-2 {
+		pad = append(pad, 'a')
+	}
+	pad = append(pad, '"', '\n')
+	strRefillPads.Store(at, pad)
+	return pad
 }
 
 func strHasBad(s []string) bool {
